@@ -44,6 +44,9 @@ ASSUMPTIONS = [
 TECHNIQUE = ('runtime contracts (postconditions) on the real criteria, conditional on ghost labels issued by producers whose '
              'certificate (explicit product decomposition) is re-verified by an independent reference')
 LEVEL_TEXT = 'held on the monitored executions (sampled separable states; completeness of the criteria is not claimed)'
+LEVEL_NOTE = ('CHABoundaryBagging.solve often raises cvxpy.SolverError in this sandbox (CLARABEL instead of ECOS): those attempts are '
+              'inconclusive. Rank-deficient states make CLARABEL fail over to SCS (1e5 iterations, "optimal_inaccurate"): such answers '
+              'are counted separately (accepted-with-status-*), and hostile states are driven through the SDP criteria mainly in (2,2).')
 DECIDING = ['is_ppt', 'is_generalized_ppt', 'check_reduction_witness', 'check_swap_witness', 'get_negativity',
             'get_concurrence_2qubit', 'get_eof_2qubit', 'get_gme_2qubit', 'is_ABk_symmetric_ext', 'get_ppt_boundary',
             'labelled/is_ppt', 'labelled/is_generalized_ppt', 'labelled/check_reduction_witness', 'labelled/check_swap_witness',
@@ -72,6 +75,8 @@ def shards(tier, seed):
              'hostile': 0, 'budget_s': 50},
             {'name': 'sdp-32', 'dims': [3, 2], 'configs': [[2, 1, 0], [2, 0, 0], [2, 0, 1], [2, 1, 1], [1, 1, 0], [3, 0, 1]], 'nstate': 3,
              'hostile': 0, 'budget_s': 50},
+            {'name': 'sdp-23-hostile', 'dims': [2, 3], 'configs': [[2, 0, 0], [2, 1, 1]], 'nstate': 4, 'hostile': 1, 'budget_s': 40},
+            {'name': 'sdp-32-hostile', 'dims': [3, 2], 'configs': [[2, 1, 0], [2, 0, 1]], 'nstate': 4, 'hostile': 1, 'budget_s': 40},
             {'name': 'sdp-22-a', 'dims': [2, 2], 'configs': [[1, 1, 0], [2, 0, 0], [2, 0, 1], [2, 1, 0], [2, 1, 1]], 'nstate': 7,
              'hostile': 1, 'budget_s': 50},
             {'name': 'sdp-22-b', 'dims': [2, 2], 'configs': [[3, 0, 0], [3, 0, 1], [3, 1, 0], [3, 1, 1]], 'nstate': 6, 'hostile': 1,
@@ -89,17 +94,18 @@ def shards(tier, seed):
                            ((3, 2), [[3, 1, 0], [3, 0, 0]]), ((3, 2), [[3, 0, 1], [3, 1, 1]]),
                            ((3, 2), [[2, 1, 0], [2, 0, 0], [2, 0, 1], [2, 1, 1], [1, 1, 0]])]:
             i = sum(1 for s in ret if s['name'].startswith(f'sdp-{dims[0]}{dims[1]}'))
-            ret.append({'name': f'sdp-{dims[0]}{dims[1]}-{i}', 'dims': list(dims), 'configs': cfgs, 'nstate': 8,
+            ret.append({'name': f'sdp-{dims[0]}{dims[1]}-{i}', 'dims': list(dims), 'configs': cfgs, 'nstate': 12,
                         'hostile': 1 if cfgs[0][0] <= 2 and dims != (3, 3) else 0, 'budget_s': B})
+        ret.append({'name': 'sdp-33-hostile', 'dims': [3, 3], 'configs': [[2, 0, 1], [1, 1, 0]], 'nstate': 6, 'hostile': 1, 'budget_s': B})
         for i, cfgs in enumerate([[[1, 1, 0], [2, 0, 0], [2, 0, 1], [2, 1, 0], [2, 1, 1]], [[3, 0, 0], [3, 0, 1], [3, 1, 0], [3, 1, 1]],
                                   [[4, 0, 0], [4, 0, 1]], [[4, 1, 0], [4, 1, 1]]]):
-            ret.append({'name': f'sdp-22-{i}', 'dims': [2, 2], 'configs': cfgs, 'nstate': 30, 'hostile': 1, 'budget_s': B})
+            ret.append({'name': f'sdp-22-{i}', 'dims': [2, 2], 'configs': cfgs, 'nstate': 40, 'hostile': 1, 'budget_s': B})
         for i in range(4):
-            ret.append({'name': f'closed-22-{i}', 'dims_list': [[2, 2]], 'n': 1000})
+            ret.append({'name': f'closed-22-{i}', 'dims_list': [[2, 2]], 'n': 2000})
         for i, d in enumerate([[2, 3], [3, 2], [3, 3], [2, 4]]):
-            ret.append({'name': f'closed-bip-{i}', 'dims_list': [d], 'n': 1000})
+            ret.append({'name': f'closed-bip-{i}', 'dims_list': [d], 'n': 2000})
         for i, d in enumerate([[2, 2, 2], [2, 3, 2], [2, 2, 2, 2]]):
-            ret.append({'name': f'closed-multi-{i}', 'dims_list': [d], 'n': 1000})
+            ret.append({'name': f'closed-multi-{i}', 'dims_list': [d], 'n': 1500})
         ret += [{'name': f'producers-{i}', 'n': 60} for i in range(2)]
     return ret
 
